@@ -148,12 +148,13 @@ func sockRound(r *hx.Rand, scratch string, n int, must []Input) []sockResult {
 	return out
 }
 
-// a long pipelined telnet session (well over the terminal's 256-byte input buffer)
+// a long pipelined telnet session (well over the terminal's 256-byte input buffer), text in UTF-8
 func longTelnet(r *hx.Rand) stream {
 	s := stream{svc: "telnet", units: []string{"root\r\n", "hunter2\r\n"}}
 	n := r.Range(12, 24)
 	for i := 0; i < n; i++ {
-		s.units = append(s.units, fmt.Sprintf("echo command-%02d %s\r\n", i, strings.Repeat("x", r.Range(0, 40))))
+		// multi-byte characters everywhere: the 256-byte reads and the TCP segments end inside them
+		s.units = append(s.units, fmt.Sprintf("echo command-%02d %s %s\r\n", i, strings.Repeat("x", r.Range(0, 40)), r.PickStr(utf8Words)))
 	}
 	return s
 }
